@@ -853,6 +853,7 @@ func init() {
 		}
 		out = append(out, Inst{Pkg: "knx", Fn: "HarnessSelfTestClock", NoNative: true, Note: "engine model of time.Now/Since/Sub/Add on the virtual clock"},
 			Inst{Pkg: "knx", Fn: "HarnessSelfTestPool", NoNative: true, Note: "engine model of sync.Pool (New on empty, last put handed out first)"},
+			Inst{Pkg: "knx", Fn: "HarnessSelfTestFormat", ForceNative: true, Note: "engine model of fmt: Error/String of operands are called for string verbs only, validated against the Go runtime"},
 			Inst{Pkg: "knx", Fn: "HarnessSelfTestErrors", ForceNative: true, Note: "engine model of fmt.Errorf(%w) / errors.Is / errors.Unwrap, validated against the Go runtime"})
 		for late := int64(0); late < 2; late++ {
 			for end := int64(0); end < 3; end++ {
@@ -866,7 +867,7 @@ func init() {
 		NoNative: true,
 		Quick:    func(l *loaded) []Inst { return c10(false) },
 		Thorough: func(l *loaded) []Inst { return c10(true) },
-		Covers:   []string{"C10.end", "C10.relay.end", "self.end", "self.clock.end", "self.pool.end", "self.errors.end"},
+		Covers:   []string{"C10.end", "C10.relay.end", "self.end", "self.clock.end", "self.pool.end", "self.errors.end", "self.format.end"},
 		Bounds:   "Close injected into an idle tunnel, a pending Send, a pending heartbeat exchange, a pending reconnect, parked inbound deliveries and a tunnel whose socket already died; 1 or 2 concurrent closers; with and without a reader; a late connection-state response / tunnelling acknowledgement followed by the end of the server goroutine (disconnect response, socket death, Close) inside the relay's offer window; real serve/process/heartbeat/relay goroutines (<= 9 threads), context bound 3 (thorough 5), scheduler step bound 30000; happens-before race check (vector clocks over go, channel, mutex, WaitGroup, Once and timer edges) on every field of the Tunnel object along all explored schedules",
 		Outside:  "3..4 concurrent closers; memory-model effects below happens-before; the receiver goroutine of the real TunnelSocket (C16)",
 		Assume:   []string{"in-memory socket whose Close is counted", "sync.Once/WaitGroup/Mutex are engine primitives"},
